@@ -19,7 +19,18 @@ def _scripts(n, seed, depth=(1, 2, 2, 3), multi=True, kinds=None, schemas=("sa",
             if t is not None:
                 stmts.append(sqlgen.Stmt("insert", g.target(), sqlgen.Select([sqlgen.Item(None, is_star=True)], [sqlgen.Group(sqlgen.Base(t.name, t.schema))])))
             if rnd.random() < 0.3 and t is not None:
-                stmts.append(sqlgen.Stmt("rename", sqlgen.Base(t.name, t.schema), None, None, {"to": g.target()}))
+                new = g.target()
+                stmts.append(sqlgen.Stmt("rename", sqlgen.Base(t.name, t.schema), None, None, {"to": new}))
+                if rnd.random() < 0.6:
+                    # the renamed table is used again under its new name: by star, and by the first named column its loader gave it
+                    q0 = stmts[0].query
+                    while q0 is not None and hasattr(q0, "body"):
+                        q0 = q0.body
+                    if isinstance(q0, sqlgen.SetOp):
+                        q0 = q0.branches[0]
+                    named = [it.out_name() for it in getattr(q0, "items", []) if not it.is_star and it.out_name()] if stmts[0].kind in ("insert", "ctas", "create_view") else []
+                    items = [sqlgen.Item(sqlgen.col(named[0]))] if named and rnd.random() < 0.7 else [sqlgen.Item(None, is_star=True)]
+                    stmts.append(sqlgen.Stmt("insert", g.target(), sqlgen.Select(items, [sqlgen.Group(sqlgen.Base(new.name, new.schema))])))
         parts = [sqlgen.render(s) for s in stmts]
         if multi and rnd.random() < 0.3:
             # DROP of: a table whose only lineage is an in-place UPDATE (no dataset read), an earlier target, an earlier source, a stranger
